@@ -43,7 +43,7 @@ Theorem C14_order :
     ga_bad_elem c = None -> ga_dests c = GValid ->
     exists i' r', getall_loop fuel i c acc any =
                   (i', None, acc ++ map row_id (r_pending r), any || negb (Nat.eqb n 0)) /\
-                  live_iter i' r' /\ r_closed r' = true /\ r_lasterr r' = None /\ r_close_err r' = None.
+                  live_iter i' r' /\ r_closed r' = true /\ rows_err r' = None /\ r_close_err r' = None.
 Proof. exact getall_loop_plain. Qed.
 Print Assumptions C14_order.
 
